@@ -66,6 +66,11 @@ def gen_cases(tier, seed):
     for i in range(4 if tier == "quick" else 60):
         cases.append({"kind": "naive_cond", "features": [4, 8, 16, 6][i % 4], "cond": [1e2, 1e3, 3e2, 1e3][i % 4],
                       "cache": bool(i % 2), "seed": env.subseed(seed, "c19nc", i), "world": "f32", "cost": 1})
+    # the clamp band of Logit / Sigmoid.inverse: inputs exactly on 0 and 1 and within eps of them are in-domain and are clamped to
+    # [eps, 1 - eps] - the declared constant is the same number in both precisions, so both must saturate at the same place
+    for i in range(6 if tier == "quick" else 36):
+        cases.append({"kind": "clamp_band", "temp": [1.0, 0.5, 3.0][i % 3], "via": ["logit", "sigmoid_inverse"][(i // 3) % 2],
+                      "seed": env.subseed(seed, "c19clamp", i), "world": "f32", "cost": 1})
     npts = 2000 if tier == "quick" else 100000
     for fam in ("linear", "quadratic", "cubic", "rq"):
         for ps in (0.3, 1.0, 1.5):
@@ -295,6 +300,45 @@ def compare_items(r, label, direction, m32, m64, x, ctx, det, me=None):
 def run_case(case):
     r = R(case)
     kind = case["kind"]
+    if kind == "clamp_band":
+        from nflows import transforms as T
+        tr32 = T.Logit(temperature=case["temp"]) if case["via"] == "logit" else T.InverseTransform(T.Sigmoid(temperature=case["temp"]))
+        tr64 = copy.deepcopy(tr32).double()
+        pts = [0.0, 1.0, 1e-7, 1 - 1e-7, 3e-7, 1 - 3e-7, 1e-6, 1 - 1e-6, 1e-5, 1 - 1e-5, 0.5]
+        x64 = torch.tensor(pts, dtype=torch.float64).reshape(-1, 1)
+        x32 = x64.float()
+        label = "%s(temperature=%g)" % (case["via"], case["temp"])
+        try:
+            with torch.no_grad():
+                o64, l64 = tr64(x32.double())
+        except Exception:
+            r.count("twin_call_raised")
+            return r.done()
+        try:
+            with torch.no_grad():
+                o32, l32 = tr32(x32)
+        except Exception as e:
+            r.ev()
+            r.viol("raises_in_float32", "%s.forward raises in float32 where its float64 twin works" % label, exc=repr(e)[:200])
+            return r.done()
+        r.ev(len(pts))
+        r.count("twin_items", len(pts))
+        r.count("clamp_band_points", len(pts))
+        if not (torch.isfinite(o32).all() and torch.isfinite(l32).all()):
+            r.viol("nonfinite_in_float32", "%s.forward non-finite in float32 (finite in float64)" % label, out32=o32.reshape(-1).tolist())
+            return r.done()
+        # (1 - 1e-6 is 1 - 1.013e-6 in single precision: the two clamp points differ by 1.3 % of eps, 1e-3 of the saturated value)
+        eo = float(((o32.double() - o64).abs() / (1 + o64.abs())).max())
+        el = float(((l32.double() - l64).abs() / (1 + l64.abs())).max())
+        r.worst("clamp_band_rel_err/5e-3", max(eo, el) / 5e-3)
+        if max(eo, el) > 5e-3:
+            k = int(((o32.double() - o64).abs() / (1 + o64.abs())).reshape(-1).argmax())
+            r.viol("outputs_disagree", "%s.forward float32 outputs disagree with the float64 twin beyond conditioning" % label,
+                   x=pts[k], out32=float(o32.reshape(-1)[k]), out64=float(o64.reshape(-1)[k]), rel_err=max(eo, el), where="clamp band")
+        else:
+            r.cell("clamp_band", case["via"], case["temp"])
+        r.sample({"clamp_band": label, "rel_err": max(eo, el)})
+        return r.done()
     if kind == "spline":
         return run_spline(r, case)
     seed = case["seed"]
